@@ -112,6 +112,20 @@ pub fn poly_case(cx: &mut Ctx, n: u64, case: &Value) {
                 }
             }
         }
+        // other scalar types: the shoelace sum of small lattice polygons is exact in f32; winding order of integer rings
+        {
+            use geo::MapCoords;
+            let p0 = Polygon::new(ext.clone(), holes.clone());
+            let pi = p0.map_coords(|c| geo::Coord { x: c.x as i64, y: c.y as i64 });
+            // (Area is implemented for float polygons only; Rect / Triangle / Line areas of integers are covered by C19-style traversal)
+            let pf = p0.map_coords(|c| geo::Coord { x: c.x as f32, y: c.y as f32 });
+            if area < 4096.0 {
+                let got = pf.signed_area();
+                if got as f64 == area { cx.ok("signed_area_f32"); } else { cx.bad("C05", "signed_area_f32", case, json!({"got": got, "want": area})); }
+            }
+            let wo = pi.exterior().winding_order();
+            if wo == Some(WindingOrder::CounterClockwise) { cx.ok("winding_order_i64"); } else { cx.bad("C05", "winding_order_i64", case, json!({"got": format!("{wo:?}")})); }
+        }
         // Rect and Triangle = their polygon forms; collections = sums
         let p0 = Polygon::new(ext.clone(), holes.clone());
         let tri2 = case["tri2"].as_f64().unwrap();
